@@ -20,6 +20,17 @@ type FedInput struct {
 	Query   string                 `json:"query"`
 	OpName  string                 `json:"operation_name,omitempty"`
 	Vars    map[string]interface{} `json:"variables,omitempty"`
+	ListLen int                    `json:"list_len,omitempty"` // override the length of Query.allUsers
+	Faults  []FaultSpec            `json:"faults,omitempty"`
+	Barrier int                    `json:"barrier,omitempty"` // hold service calls until this many are in flight (or 150ms)
+}
+
+// FaultSpec makes calls number From..From+Count-1 (arrival order) of one service fail.
+type FaultSpec struct {
+	Service string `json:"service"`
+	From    int    `json:"from"`
+	Count   int    `json:"count"`
+	Kind    string `json:"kind"` // transport | gqlerrors | gqlerrors+data | node-null | empty | wrong-shape
 }
 
 // FedCase is an executed federated case with both oracles.
@@ -34,6 +45,7 @@ type FedCase struct {
 	WantGo  map[string]interface{} // Go interpreter (cross-check of the oracle)
 	Classes []string
 	Invalid string
+	Injected *FaultLog
 }
 
 // Classify computes the decidable input regions used by KNOWN_FINDINGS (DESIGN §3 step 6).
@@ -94,6 +106,18 @@ func rootTypeOf(op *ast.OperationDefinition) string {
 func RunFed(c *Ctx, in FedInput, timeout time.Duration, opts ...gateway.Option) (*FedCase, error) {
 	fc := &FedCase{In: in}
 	fc.Store = GenStore(rand.New(rand.NewSource(in.StoreSeed)), in.OddIDs)
+	if in.ListLen > 0 {
+		var ids []string
+		for id := range fc.Store["User"] {
+			ids = append(ids, id)
+		}
+		sort.Strings(ids)
+		var l []interface{}
+		for i := 0; i < in.ListLen; i++ {
+			l = append(l, Ref{"User", ids[i%len(ids)]})
+		}
+		fc.Store["Query"][""]["allUsers"] = l
+	}
 	doc, errs := gqlparser.LoadQuery(MonoSchema(), in.Query)
 	if errs != nil {
 		fc.Invalid = errs.Error()
@@ -115,6 +139,7 @@ func RunFed(c *Ctx, in FedInput, timeout time.Duration, opts ...gateway.Option) 
 		return nil, fmt.Errorf("federation rejected: %w", err)
 	}
 	fc.Fed = f
+	fc.Injected = InstallFaults(f, in.Faults, in.Barrier)
 	fc.WantGo, _ = Exec(MonoSchema(), fc.Store, doc, in.OpName, in.Vars)
 	if c.Drv != nil {
 		res, err := c.Drv.Call(MonoCase(MonoSchema(), fc.Store, doc, fc.Op, in.Vars))
